@@ -506,7 +506,12 @@ package internal
 //@ iface RequestMethodChecker.IsRequestMethodUnderstood(c, req)
 //@   pure
 //@   requires req != nil
-//@   ensures result == (req.Method == "GET" && hget(req.Header, "Range") == "")
+//@   ensures result == (req.Method == "GET" && hget(req.Header, "Range") == "")                  # name: plain-get-without-range
+
+// the production implementation (wired in through RequestMethodCheckerFunc) is verified against the interface's contract
+//@ func isRequestMethodUnderstood
+//@   implements RequestMethodChecker.IsRequestMethodUnderstood
+//@   property C03 C06 C18
 
 //@ spec func allRefsNonNil(refs ResponseRefs) bool = forall i int :: 0 <= i && i < len(refs) ==> refs[i] != nil
 
@@ -988,6 +993,10 @@ package internal
 //@   requires r != nil && r.cache != nil && r.cke != nil && reqURL != nil && deleteFn != nil
 //@   assigns storeWrites, deletedKeys, indexRead, lastResolved
 //@   ensures forall x string :: old(deletedKeys)[x] ==> deletedKeys[x]                                     # name: deletions-accumulate
+//@   callsite url.Parse :: rawURL == hget(respHeader, canon(hdr))                                          # name: the-reference-is-the-value-of-the-field-examined
+//@   callsite ResolveReference :: u == reqURL                                                              # name: references-are-resolved-against-the-request-uri
+//@   callsite sameOrigin :: a == reqURL && b == lastResolved                                                # name: origin-of-the-resolved-uri-is-compared-with-the-requests
+//@   callsite URLKey :: u == lastResolved                                                                   # name: the-key-invalidated-is-the-resolved-uris
 //@   loop 0 invariant forall x string :: old(deletedKeys)[x] ==> deletedKeys[x]
 //@   rangefunc 0 invariant forall x string :: old(deletedKeys)[x] ==> deletedKeys[x]
 
@@ -1067,9 +1076,10 @@ package internal
 //@ spec func portPartOf(hp string) string
 //@ spec func allDigits(s string) bool = forall i int :: 0 <= i && i < len(s) ==> s[i] >= 48 && s[i] <= 57
 //@ func validOptionalPort
-//@   trusted
+//@   property C03 C07
 //@   pure
-//@   ensures result == (port == "" || (port[0] == 58 && allDigits(port[1:len(port)])))
+//@   ensures result == (port == "" || (port[0] == 58 && allDigits(port[1:len(port)])))          # name: empty-or-colon-and-digits
+//@   loop 0 invariant forall j int :: visited(j) ==> port[1:len(port)][j] >= 48 && port[1:len(port)][j] <= 57
 //@ func splitHostPort
 //@   property C03
 //@   pure
